@@ -171,7 +171,7 @@ pub fn in_circuit(
         let mut prover = match r {
             Err(p) => {
                 // "not enough rows" style assertions of MockProver itself when k was guessed
-                if k0.is_none() && k < 16 && (p.contains("minimum_rows") || p.contains("instance.len=")) {
+                if k0.is_none() && k < 17 && (p.contains("minimum_rows") || p.contains("instance.len=") || p.contains("not in usable_rows")) {
                     k += 2;
                     continue;
                 }
@@ -179,7 +179,7 @@ pub fn in_circuit(
             }
             Ok(Err(e)) => {
                 let s = format!("{e:?}");
-                if k0.is_none() && k < 16 && s.contains("NotEnoughRows") {
+                if k0.is_none() && k < 17 && s.contains("NotEnoughRows") {
                     k += 2;
                     continue;
                 }
@@ -231,6 +231,25 @@ pub fn compile(rel: &ZkirRelation) -> Comp {
     };
     let from_relation = catch(|| MidnightCircuit::from_relation(rel).min_k());
     Comp { synth, k, from_relation }
+}
+
+/// `used_chips` enables the Jubjub chip only for `Load` / `FromBytes` of a Jubjub type: a program
+/// whose only Jubjub values are constants panics when the chip is requested.
+pub fn is_arch_panic(panic_msg: &str) -> bool {
+    panic_msg.contains("ZkStdLibArch must enable")
+}
+
+/// Whether synthesising the circuit (dummy run, no table) panics.
+pub fn synth_panics(rel: &ZkirRelation, w: Option<&[(&'static str, IrValue)]>) -> bool {
+    catch(|| {
+        let wit = match w {
+            Some(w) => Value::known(wmap(w)),
+            None => Value::unknown(),
+        };
+        let c = MidnightCircuit::new(rel, Value::unknown(), wit, Some(MAX_BIT_LEN));
+        let _ = dummy_synthesize_run(&c);
+    })
+    .is_err()
 }
 
 pub fn is_cost_model_unwrap(panic_msg: &str) -> bool {
